@@ -238,6 +238,18 @@ Diff(G, U, a, b, d) == Escapees(G, U, a, b, d)
 
 Wit(S) == IF S = {} THEN <<>> ELSE <<CHOOSE v \in S : TRUE>>
 
+(* The values of the STATIC type of a literal expression denoting v: same shape, any   *)
+(* int / bin at the leaves; a function literal has exactly its own signature.           *)
+RECURSIVE ShapeVals(_)
+ShapeVals(v) ==
+  CASE v.k = "int" -> Ints
+    [] v.k = "bin" -> Bins
+    [] v.k = "tup" -> {TupVal(v.name, v.ls, fs) :
+                         fs \in SeqProd([i \in DOMAIN v.fs |-> ShapeVals(v.fs[i])])}
+    [] OTHER -> {v}
+
+StaticContained(G, U, v, a, d) == \A w \in ShapeVals(v) : Inhabits(G, U, w, a, d)
+
 (* constructor census of the part of G below a root (for evidence) *)
 RECURSIVE KindsBelow(_, _)
 KindsBelow(G, n) ==
